@@ -81,6 +81,44 @@ CLAIMED["C16"] = dict(
     technique="Lean 4 proof (arithmetic + machine invariants + N-thread protocol invariants) + white-box differential + E-SHIM trace replay",
     design="§3 C16")
 
+CLAIMED["C05"] = dict(
+    text="Lean 4 theorems for every size < 2^64, grain, partitioner and steal environment: midpoint and proportional (binary32, modelled "
+         "exactly) splits give two non-empty adjacent parts; the 2d/3d/nd dimension choice never cuts an indivisible dimension (over the "
+         "selection rule regenerated from the headers); the range pool ring holds <= capacity entries that tile the task's range; whatever a "
+         "task runs, spawns or drops is the leaf set of a legal split tree of its range; whole loops visit every index exactly once and "
+         "nothing outside; simple_partitioner chunks have size in [ceil(g/2), g]; strided index map. Tie: generated constants and selection "
+         "flags, white-box differential on the real split constructors and range_vector, the real start_for/partitioners on a scripted "
+         "runtime replayed task by task on the model, real-thread runs with per-element monitors.",
+    note="Trusted: Lean kernel, standard axioms, harness/c05 (scripted r1 mock + real runs), sampled correspondence. parallel_for_each feeder "
+         "and parallel_invoke are covered by implementation monitors only; termination proved for simple_partitioner on blocked_range.",
+    technique="Lean 4 proof (split-tree refinement under a universally quantified steal environment; exact float model) + generated rules + differential",
+    design="§3 C05, §4 F5")
+CLAIMED["C20"] = dict(
+    text="Lean 4 theorems for all owners, programs and schedules of the suspend-point protocol (one step per access to m_stack_state / "
+         "m_is_owner_recalled and per push/take of the resume task): every completed suspension has exactly one accepted resume call before "
+         "its continuation and exactly one push (by the resumer iff it found `suspended`, else by the leaver that saw `notified`), the stack "
+         "is never run by two threads, no continuation without a resume call, only the chains A->S->N->A and A->N->S->N->A occur for "
+         "handed-out points, the enclosing wait cannot complete while a covered task is suspended, owner recall once. Tie: generated enum "
+         "values, E-SHIM on the whole instrumented runtime with real ucontext switches; every state-word event is validated as an enabled "
+         "model step; independent monitors (continuation count, ordering, deadlock/livelock).",
+    note="Trusted: Lean kernel, standard axioms, E-SHIM runtime, harness/c20, sampled correspondence. The register save/restore of the stack "
+         "switch itself is not modelled. API precondition (each suspend point resumed exactly once) is an explicit model guard.",
+    technique="Lean 4 proof (N-thread inductive invariant over the handshake protocol) + E-SHIM trace validation with targeted resume windows",
+    design="§3 C20")
+CLAIMED["C03"] = dict(
+    text="Lean 4 theorems for any number of threads, tasks, throw scripts and schedules of the dispatcher's catch/cancel/finalise loop: at most "
+         "one exception stored per context epoch, only by the exchange winner, and it was thrown by that group; every task finalised exactly "
+         "once (partial: programs without a throwing join; the negation witness for a throwing join is proved and is a recorded finding); "
+         "the waiting call returns or rethrows only after the counter is 0 and all other threads are idle; nothing swallowed; no exception "
+         "leaves a worker; the group is reusable after wait; reduction bodies destroyed once and never joined when cancelled. Tie: E-SHIM on "
+         "the whole instrumented runtime with fault schedules (k-th body / range split / copy / join / item copy throws) over 23 programs; "
+         "event logs validated against the model; seven independent monitors.",
+    note="Trusted: Lean kernel, standard axioms, E-SHIM runtime, harness/c03, sampled correspondence. Four genuine defects are listed in "
+         "KNOWN_FINDINGS.txt (throwing join, throwing range split in deterministic reduce, throwing message copy in flow graph, cancelled "
+         "pipeline leaking parked tokens). C++ unwinding inside user code is not modelled.",
+    technique="Lean 4 proof (interleaving model of the exception path) + E-SHIM fault enumeration + trace validation",
+    design="§3 C03, §4")
+
 NOT_YET = "check not built yet in this round (planned: DESIGN.md §3); no claim is made"
 
 
